@@ -23,6 +23,7 @@ def dispatch (line : String) : String :=
     match cmd with
     | "ping" => "pong"
     | "sid" => cmdSid args
+    | "sweep" => cmdSweep args
     | "drain" => cmdDrain args
     | "msg" => cmdMsg args
     | "frag" => cmdFrag args
